@@ -46,6 +46,11 @@ CLAIMS = {
         "note": "Trusts CrossHair/z3 and the twin comparison in harness/c07.py. One machine FT (+2 variants), 3 fixed event sequences; timers/services are observed at _cancel_state_tasks/_schedule_state_tasks (not started). Faults during start() and BaseException faults are outside.",
         "design": "DESIGN.md section 4 C07",
     },
+    "C08": {
+        "text": "Bounded symbolic check under a virtual clock (virtual-time asyncio loop; virtual threads for the sync engine): a timer machine with two named-delay `after` entries (second guarded), leave / re-enter / slow-action / stop paths; delays, slow-action duration and the instants of two external stimuli are symbolic integers (ms), so z3 decides every before / same-instant / after ordering of deadlines and events. Oracle over the time-stamped log: a delayed transition fires only after its state has been continuously active for the delay resolved at that entry and with its guard true, at most once per activation, exactly at the deadline when the interpreter is idle, never for an activation that was left or stopped before; at quiescence and at the end no more timer tasks/threads are pending than the active states own. Both engines.",
+        "note": "Trusts CrossHair/z3 (floats modelled as reals: exact arithmetic), the virtual-time stubs vf/vloop.py and vf/vthread.py (a timer thread's body runs atomically at its deadline, between harness calls or inside the slow action). Outside: real scheduler latency, pre-emptive thread interleavings inside send(), more than two stimuli, machines other than TM.",
+        "design": "DESIGN.md section 4 C08",
+    },
     "C10": {
         "text": "Bounded symbolic check: one event from every stable configuration of a completion machine (3-region parallel state with history child, nested compound with its own onDone, targetless parallel onDone; also a variant with prefix-named regions) and symbolic event sequences from start(): onDone fires exactly when the independently recomputed doneness rises, never while a region is not final, done data = final state's output; top-level final: status done once, on_done once, machine-level output precedence (4 variants incl. falsy), later sends are no-ops, stop() still works. Both engines.",
         "note": "Trusts CrossHair/z3 and done_ref in harness/c10.py. One fixed machine family (DM, DM2, TOP0-3), sequences <= 3 (quick) / 4; release of timers/services/actors by stop() after completion is C14's subject.",
